@@ -104,15 +104,10 @@ def handle (ws : List String) : String :=
     | none => "bad-request"
   | op :: rest =>
     if op.startsWith "xml:" then handleXml (op :: rest) else
-    match handleTok (op :: rest) with
+    -- add-on op files: one `List String → Option String` handler each
+    match [handleTok, handleSpec, handleSer].findSome? (fun h => h (op :: rest)) with
     | some r => r
-    | none =>
-      match handleSpec (op :: rest) with
-      | some r => r
-      | none =>
-        match handleSer (op :: rest) with
-        | some r => r
-        | none => "bad-op"
+    | none => "bad-op"
   | _ => "bad-op"
 
 partial def loop (h : IO.FS.Stream) (out : IO.FS.Stream) : IO Unit := do
